@@ -44,10 +44,209 @@ C01Docs == DedupSeq(L1 \o L2)
 C01Queries == TuplesUpTo(Segs, IF Thorough THEN 3 ELSE 2)
 C01Stride == IF Thorough THEN 40 ELSE 16
 
+
+(* ---------- shared helpers ------------------------------------------------ *)
+cL == <<108>>  cY == <<121>>  cN == <<110>>  cP == <<112>>  cS == <<115>>
+Obj1(k, v) == JObj(<<k>>, <<v>>)
+\* an object with the members whose value is not NOTHING (so "absent" is expressible in a tuple)
+ObjOpt(ks, vs) == LET ix == FilterSeq([i \in 1..Len(ks) |-> i], LAMBDA i : vs[i].t # "nothing")
+                  IN JObj([n \in 1..Len(ix) |-> ks[ix[n]]], [n \in 1..Len(ix) |-> vs[ix[n]]])
+RECURSIVE Chunks(_, _)
+Chunks(s, n) == IF Len(s) <= n THEN <<s>> ELSE <<SubSeq(s, 1, n)>> \o Chunks(SubSeq(s, n + 1, Len(s)), n)
+Flt1(lx) == <<Child(<<SFilter(lx)>>)>>                 \* $[?lx]
+RelN(n) == ERel(<<N1(n)>>)                            \* @.n
+AbsIdxN(i, n) == EAbs(<<I1(i), N1(n)>>)               \* $[i].n
+F(m, e) == JNum(m, e, TRUE)
+
+(* ---------- C11: index and slice arithmetic ------------------------------- *)
+C11Lens == IF Thorough THEN 0..6 ELSE 0..4
+ArrOfLen(n) == JArr([i \in 1..n |-> JInt(i - 1)])
+C11Docs == [n \in 1..(IF Thorough THEN 7 ELSE 5) |-> ArrOfLen(n - 1)]
+           \o <<JObj(<<cA, cB>>, <<JInt(0), JInt(1)>>), JStr(<<97, 98, 99>>), JInt(5), JNull,
+                JArr(<<ArrOfLen(3), ArrOfLen(2), JObj(<<cA>>, <<ArrOfLen(4)>>)>>)>>
+Window(w) == [i \in 1..(2 * w + 1) |-> i - w - 1]
+C11Bounds == <<ABSENT>> \o Window(IF Thorough THEN 8 ELSE 4)
+             \o (IF Thorough THEN <<BIG, 0 - BIG, BIG - 1, 1 - BIG>> ELSE <<BIG, 0 - BIG>>)
+C11Steps == C11Bounds
+C11Slices == FlattenSeq([a \in 1..Len(C11Bounds) |-> FlattenSeq([b \in 1..Len(C11Bounds) |->
+               [c \in 1..Len(C11Steps) |-> SSlice(C11Bounds[a], C11Bounds[b], C11Steps[c])]])])
+C11Idx == LET w == Window(IF Thorough THEN 9 ELSE 6) \o <<BIG, 0 - BIG, BIG - 1, 1 - BIG>>
+          IN [i \in 1..Len(w) |-> SIndex(w[i])]
+C11Sels == C11Slices \o C11Idx
+C11Queries == [i \in 1..Len(C11Sels) |-> <<Child(<<C11Sels[i]>>)>>]
+              \o [i \in 1..Len(C11Sels) |-> <<Desc(<<C11Sels[i]>>)>>]       \* the same under ..
+              \o [i \in 1..Len(C11Idx) |-> <<Child(<<SWild>>), Child(<<C11Idx[i]>>)>>]
+C11Stride == IF Thorough THEN 1 ELSE 3
+
+(* ---------- C03: Normalized Paths ------------------------------------------ *)
+C03Alpha == <<97, 32, 39, 34, 92, 47, 1, 10, 233, 128512>>       \* a SP ' " \ / U+0001 LF e-acute U+1F600
+C03Names == DedupSeq(TuplesOf(C03Alpha, 1) \o TuplesOf(C03Alpha, 2)
+            \o << <<39, 120, 39>>, <<34, 120, 34>>, <<48>>, <<>>, <<8>>, <<12>>, <<13>>, <<9>>, <<11>>, <<31>>, <<127>>,
+                  <<97, 39, 98>>, <<92, 110>>, <<92, 92>>, <<36>>, <<91, 48, 93>> >>)
+C03Inner == <<JInt(1), JArr(<<JInt(1), JInt(2), JInt(3)>>), JObj(<<cA>>, <<JInt(1)>>)>>
+\* one odd-named member at depth 1, and the same below a plain member / inside an array
+C03Docs == FlattenSeq([i \in 1..Len(C03Names) |->
+              <<Obj1(C03Names[i], C03Inner[(i % 3) + 1]),
+                Obj1(cA, Obj1(C03Names[i], JInt(1))),
+                JArr(<<JInt(0), Obj1(C03Names[i], JArr(<<JInt(7)>>))>>)>>])
+           \o <<JArr(<<JArr(<<JInt(1), JInt(2), JInt(3)>>), JArr(<<>>), JInt(5)>>), JInt(1), JObj(<<>>, <<>>)>>
+C03NameRoutes == [i \in 1..Len(C03Names) |-> <<N1(C03Names[i])>>]
+                 \o [i \in 1..Len(C03Names) |-> <<Desc(<<SName(C03Names[i])>>)>>]
+C03Routes == << <<Child(<<SWild>>)>>, <<Desc(<<SWild>>)>>, <<Child(<<SWild>>), Child(<<SWild>>)>>,
+                <<Child(<<SFilter(LCmp("==", ERel(<<>>), ELit(JInt(1))))>>)>>,
+                <<Desc(<<SFilter(LTest(FALSE, ERel(<<>>)))>>)>>,
+                <<Desc(<<SIndex(-1)>>)>>, <<Desc(<<SIndex(0)>>)>>, <<Desc(<<SSlice(ABSENT, ABSENT, -1)>>)>>,
+                <<Desc(<<SSlice(1, ABSENT, ABSENT)>>)>>, <<Child(<<SWild>>), Child(<<SIndex(-2), SIndex(0)>>)>>,
+                <<Desc(<<SWild, SIndex(-1)>>)>> >>
+C03Queries == C03Routes \o C03NameRoutes
+\* name routes only make sense on the documents that contain that name: pick them, plus all generic routes
+C03Pick(d, q) == \/ q <= Len(C03Routes)
+                 \/ LET ni == ((q - Len(C03Routes) - 1) % Len(C03Names)) + 1
+                    IN d <= 3 * Len(C03Names) /\ ((d - 1) \div 3) + 1 = ni
+
+(* ---------- C04: comparisons ------------------------------------------------ *)
+C04Prims == <<JNull, JBool(TRUE), JBool(FALSE), JInt(0), F(0, 0), JInt(1), F(1, 0), JInt(-1), F(15, -1),
+              JInt(100), F(1, 2), F(1000, -1), F(1, -20), F(-1, -20), JInt(2), F(25, -1),
+              JStr(<<>>), JStr(cA), JStr(cB), JStr(<<65>>), JStr(<<233>>), JStr(<<128512>>), JStr(<<97, 98>>),
+              JStr(<<49>>), JStr(<<97, 0>>)>>
+C04Structs == <<JArr(<<>>), JArr(<<JInt(1)>>), JArr(<<F(1, 0)>>), JArr(<<JInt(1), JInt(2)>>), JArr(<<JArr(<<JInt(1)>>)>>),
+                JObj(<<>>, <<>>), Obj1(cA, JInt(1)), Obj1(cA, F(1, 0)), JObj(<<cA, cB>>, <<JInt(1), JInt(2)>>),
+                JArr(<<JNull>>), Obj1(cA, JNull)>>
+C04Vals == C04Prims \o C04Structs \o <<NOTHING>>
+C04ValsQ == <<JNull, JBool(TRUE), JInt(0), JInt(1), F(1, 0), F(15, -1), F(1, -20), JInt(100), F(1, 2),
+              JStr(<<>>), JStr(cA), JStr(cB), JStr(<<233>>), JStr(<<128512>>),
+              JArr(<<>>), JArr(<<JInt(1)>>), JArr(<<F(1, 0)>>), JObj(<<>>, <<>>), Obj1(cA, JInt(1)), Obj1(cA, F(1, 0)), NOTHING>>
+C04V == IF Thorough THEN C04Vals ELSE C04ValsQ
+\* children {x: v1, y: v2} for all pairs, in chunks
+C04Children == Cross2(C04V, C04V, LAMBDA v, w : ObjOpt(<<cX, cY>>, <<v, w>>))
+C04ChunkDocs == LET ch == Chunks(C04Children, 40) IN [i \in 1..Len(ch) |-> JArr(ch[i])]
+C04Lits == IF Thorough THEN C04Prims ELSE <<JNull, JBool(TRUE), JInt(0), JInt(1), F(1, 0), F(1, -20), F(1, 2), JInt(100), JStr(<<>>), JStr(cA), JStr(<<233>>)>>
+C04Single == JArr([i \in 1..Len(C04V) |-> ObjOpt(<<cX>>, <<C04V[i]>>)])
+C04Docs == C04ChunkDocs \o <<C04Single>>
+C04PairQ == [o \in 1..6 |-> Flt1(LCmp(CmpOps[o], RelN(cX), RelN(cY)))]
+            \o [o \in 1..6 |-> Flt1(LCmp(CmpOps[o], EFn("value", <<RelN(cX)>>), RelN(cY)))]
+            \o [o \in 1..6 |-> Flt1(LCmp(CmpOps[o], RelN(cX), AbsIdxN(0, cY)))]        \* $-rooted operand
+C04LitQ == FlattenSeq([l \in 1..Len(C04Lits) |-> FlattenSeq([o \in 1..6 |->
+              << Flt1(LCmp(CmpOps[o], RelN(cX), ELit(C04Lits[l]))),
+                 Flt1(LCmp(CmpOps[o], ELit(C04Lits[l]), RelN(cX))) >>])])
+           \o FlattenSeq([o \in 1..6 |-> << Flt1(LCmp(CmpOps[o], EFn("length", <<RelN(cX)>>), ELit(JInt(1)))),
+                                           Flt1(LCmp(CmpOps[o], EFn("count", <<ERel(<<N1(cX), Child(<<SWild>>)>>)>>), ELit(F(1, 0)))),
+                                           Flt1(LCmp(CmpOps[o], ELit(JInt(1)), ELit(F(1, 0)))),
+                                           Flt1(LCmp(CmpOps[o], ELit(JStr(cA)), ELit(JStr(cB)))) >>])
+C04Queries == C04PairQ \o C04LitQ
+\* pair queries on pair chunks, literal queries on the single-operand document
+C04Pick(d, q) == IF q <= Len(C04PairQ) THEN d <= Len(C04ChunkDocs) ELSE d = Len(C04Docs)
+
+(* ---------- C05: filter logic, existence, scoping ---------------------------- *)
+C05AVals == <<NOTHING, JInt(1), JNull, JBool(FALSE), JStr(<<>>)>>
+C05BVals == <<NOTHING, JArr(<<>>), JObj(<<>>, <<>>), JInt(0)>>
+C05CVals == <<NOTHING, JInt(1), JInt(2)>>
+C05Kids == FlattenSeq([a \in 1..Len(C05AVals) |-> FlattenSeq([b \in 1..Len(C05BVals) |->
+              [c \in 1..Len(C05CVals) |-> ObjOpt(<<cA, cB, cC>>, <<C05AVals[a], C05BVals[b], C05CVals[c]>>)]])])
+C05Extra == <<JInt(1), JNull, JArr(<<>>), JArr(<<Obj1(cB, JInt(1))>>), JArr(<<Obj1(cA, JInt(1)), JInt(2)>>), Obj1(cX, Obj1(cB, JNull))>>
+C05Docs == <<JObj(<<cK, cL>>, <<JInt(1), JArr(C05Kids \o C05Extra)>>),
+             JObj(<<cK, cL>>, <<JInt(2), JObj([i \in 1..12 |-> <<107, 48 + (i \div 10), 48 + (i % 10)>>], [i \in 1..12 |-> (C05Kids \o C05Extra)[i * 5]])>>),
+             JArr(<<JArr(<<Obj1(cB, JInt(1))>>), JArr(<<JInt(1)>>), JArr(<<>>), Obj1(cA, Obj1(cB, JInt(1))), Obj1(cB, JInt(1)), JInt(3)>>)>>
+TA == LTest(FALSE, RelN(cA))   TB == LTest(FALSE, RelN(cB))   TC == LCmp("==", RelN(cC), ELit(JInt(1)))
+NA == LTest(TRUE, RelN(cA))    NB == LTest(TRUE, RelN(cB))
+TK == LCmp("==", EAbs(<<N1(cK)>>), RelN(cA))                       \* $.k == @.a   ($ is the document root)
+TW == LTest(FALSE, ERel(<<Child(<<SWild>>)>>))                     \* @.*
+TN == LTest(FALSE, ERel(<<Child(<<SFilter(LTest(FALSE, RelN(cB)))>>)>>))      \* @[?@.b]   (nested filter, @ rebinding)
+TN2 == LTest(FALSE, ERel(<<Child(<<SWild>>), Child(<<SFilter(LCmp("==", ERel(<<>>), EAbs(<<N1(cK)>>)))>>)>>))  \* @.*[?@ == $.k]
+TNN == LTest(TRUE, ERel(<<Child(<<SFilter(LTest(TRUE, RelN(cB)))>>)>>))       \* !@[?!@.b]
+C05Atoms == <<TA, TB, TC, NA, TK, TW, TN, TN2>>
+C05AtomsT == C05Atoms \o <<NB, TNN, LCmp("!=", RelN(cA), RelN(cC)), LTest(FALSE, EAbs(<<N1(cK)>>)), LTest(TRUE, EAbs(<<N1(cX)>>))>>
+C05A == IF Thorough THEN C05AtomsT ELSE C05Atoms
+C05And2 == Cross2(C05A, C05A, LAMBDA x, y : LAnd(<<x, y>>))
+C05Or2 == Cross2(C05A, C05A, LAMBDA x, y : LOr(<<x, y>>))
+C05Core == <<TA, TB, TC, NA>>
+C05And3 == FlattenSeq([i \in 1..Len(C05Core) |-> Cross2(C05Core, C05Core, LAMBDA y, z : LAnd(<<C05Core[i], y, z>>))])
+C05OrAnd == FlattenSeq([i \in 1..Len(C05Core) |-> Cross2(C05Core, C05Core, LAMBDA y, z : LOr(<<C05Core[i], LAnd(<<y, z>>)>>))])   \* a || b && c
+C05AndOr == FlattenSeq([i \in 1..Len(C05Core) |-> Cross2(C05Core, C05Core, LAMBDA y, z : LOr(<<LAnd(<<C05Core[i], y>>), z>>))])   \* a && b || c
+C05ParOr == FlattenSeq([i \in 1..Len(C05Core) |-> Cross2(C05Core, C05Core, LAMBDA y, z : LAnd(<<LParen(FALSE, LOr(<<C05Core[i], y>>)), z>>))]) \* (a || b) && c
+C05NegPar == FlattenSeq([i \in 1..Len(C05Core) |-> Cross2(C05Core, C05Core, LAMBDA y, z : LOr(<<LParen(TRUE, LAnd(<<C05Core[i], y>>)), z>>))])  \* !(a && b) || c
+C05NegOr == Cross2(C05A, C05A, LAMBDA x, y : LParen(TRUE, LOr(<<x, y>>)))                                                  \* !(a || b)
+C05DblNeg == [i \in 1..Len(C05A) |-> LParen(TRUE, LParen(TRUE, C05A[i]))]                                                   \* !(!(a))
+C05Deep == Cross2(C05Core, C05Core, LAMBDA x, y : LParen(TRUE, LOr(<<LParen(TRUE, LAnd(<<x, y>>)), LParen(FALSE, LParen(TRUE, y))>>)))
+C05Lx == C05A \o C05And2 \o C05Or2 \o C05And3 \o C05OrAnd \o C05AndOr \o C05ParOr \o C05NegPar \o C05NegOr \o C05DblNeg \o C05Deep
+C05Queries == [i \in 1..Len(C05Lx) |-> <<N1(cL), Child(<<SFilter(C05Lx[i])>>)>>]        \* $.l[?lx]
+              \o [i \in 1..Len(C05A) |-> <<Desc(<<SFilter(C05A[i])>>)>>]                \* $..[?atom]
+              \o [i \in 1..Len(C05A) |-> <<Child(<<SFilter(C05A[i])>>)>>]               \* $[?atom]
+C05Stride == IF Thorough THEN 1 ELSE 2
+
+(* ---------- C10: length, count, value, match, search -------------------------- *)
+C10Chars == <<97, 98, 10, 128512>>
+C10Subjects == TuplesUpTo(C10Chars, IF Thorough THEN 3 ELSE 2) \o << <<13>>, <<97, 13>>, <<233>>, <<97, 98, 97, 98>>, <<98, 97>> >>
+C10NonStr == <<JNull, JBool(TRUE), JInt(1), JArr(<<JStr(cA)>>), Obj1(cA, JStr(cA)), JArr(<<>>)>>
+C10SubjDoc == JArr([i \in 1..Len(C10Subjects) |-> JStr(C10Subjects[i])] \o C10NonStr)
+ReAtoms == <<RChr(97), RChr(98), RAny, RCls(<< <<97, 98>> >>), RNcls(<< <<97, 97>> >>), RChr(128512)>>
+ReQuant == FlattenSeq([i \in 1..Len(ReAtoms) |-> <<RStar(ReAtoms[i]), RPlus(ReAtoms[i]), ROpt(ReAtoms[i])>>])
+ReL1 == ReAtoms \o ReQuant
+ReCat2 == Cross2(ReL1, ReL1, LAMBDA x, y : RCat(<<x, y>>))
+ReAlt2 == Cross2(ReL1, ReL1, LAMBDA x, y : RAlt(<<x, y>>))
+ReGrpAlt == [i \in 1..Len(ReAlt2) |-> RGrp(ReAlt2[i])]
+ReL2 == ReL1 \o ReCat2 \o ReAlt2
+        \o Cross2(SubSeq(ReGrpAlt, 1, 40), <<RChr(97), RStar(RAny)>>, LAMBDA g, y : RCat(<<g, y>>))   \* (x|y)a
+        \o [i \in 1..40 |-> RStar(ReGrpAlt[i * 3])]                                                       \* (x|y)*
+        \o Cross2(SubSeq(ReCat2, 1, 30), SubSeq(ReL1, 1, 6), LAMBDA c, y : RAlt(<<c, y>>))                  \* xy|z
+        \o <<RAlt(<<RChr(97), RChr(98), RCat(<<RChr(97), RChr(98)>>)>>), RCat(<<RChr(97), RAny, RChr(98)>>), REps,
+             RCls(<< <<97, 97>>, <<128512, 128512>> >>), RPlus(RGrp(RCat(<<RChr(97), RChr(98)>>)))>>
+C10Patterns == [i \in 1..Len(ReL2) |-> RenderRe(ReL2[i])]
+C10BadPatterns == << <<91>>, <<40>>, <<42, 97>>, <<97, 41>>, <<91, 93>>, <<97, 124, 42>> >>
+C10AllPatterns == C10Patterns \o C10BadPatterns
+C10ReQ == FlattenSeq([i \in 1..Len(C10AllPatterns) |->
+            << Flt1(LTest(FALSE, EFn("match", <<ERel(<<>>), ELit(JStr(C10AllPatterns[i]))>>))),
+               Flt1(LTest(FALSE, EFn("search", <<ERel(<<>>), ELit(JStr(C10AllPatterns[i]))>>))) >>])
+C10FnVals == <<NOTHING, JNull, JBool(FALSE), JInt(3), F(15, -1), JStr(<<>>), JStr(cA), JStr(<<128512, 233>>), JStr(<<97, 98, 99>>),
+               JArr(<<>>), JArr(<<JInt(1)>>), JArr(<<JInt(1), JInt(2)>>), JArr(<<JArr(<<JInt(1), JInt(1)>>)>>),
+               JObj(<<>>, <<>>), Obj1(cA, JInt(1)), JObj(<<cA, cB>>, <<JInt(1), JInt(1)>>), Obj1(cA, Obj1(cA, JInt(1)))>>
+C10FnDoc == JArr([i \in 1..Len(C10FnVals) |-> ObjOpt(<<cX>>, <<C10FnVals[i]>>)])
+XW == ERel(<<N1(cX), Child(<<SWild>>)>>)       \* @.x[*]
+XD == ERel(<<Desc(<<SName(cA)>>)>>)            \* @..a
+C10FnExprs == <<EFn("length", <<RelN(cX)>>), EFn("count", <<XW>>), EFn("count", <<XD>>), EFn("count", <<RelN(cX)>>),
+                EFn("value", <<XW>>), EFn("value", <<XD>>), EFn("length", <<EFn("value", <<XW>>)>>),
+                EFn("length", <<EFn("value", <<RelN(cX)>>)>>), EFn("count", <<ERel(<<Desc(<<SWild>>)>>)>>)>>
+C10FnQ == FlattenSeq([f \in 1..Len(C10FnExprs) |->
+             [k \in 1..5 |-> Flt1(LCmp("==", C10FnExprs[f], ELit(JInt(k - 1))))]
+             \o << Flt1(LCmp(">=", C10FnExprs[f], ELit(JInt(0)))), Flt1(LCmp("<", C10FnExprs[f], ELit(JInt(2)))),
+                   Flt1(LCmp("==", C10FnExprs[f], C10FnExprs[f])), Flt1(LCmp("!=", C10FnExprs[f], ELit(JInt(1)))),
+                   Flt1(LCmp("==", ELit(JInt(1)), C10FnExprs[f])) >>])
+          \o << Flt1(LTest(FALSE, EFn("match", <<RelN(cX), ELit(JStr(<<97, 46, 42>>))>>))),       \* match(@.x, 'a.*')
+                Flt1(LTest(TRUE, EFn("search", <<RelN(cX), ELit(JStr(<<98>>))>>))),                \* !search(@.x, 'b')
+                Flt1(LTest(FALSE, EFn("match", <<RelN(cX), RelN(cX)>>))),                           \* pattern from the document
+                Flt1(LTest(FALSE, EFn("search", <<ELit(JStr(<<97, 98, 99>>)), RelN(cX)>>))),
+                Flt1(LTest(FALSE, EFn("match", <<ELit(JInt(1)), ELit(JStr(<<49>>))>>))),            \* non-string subject
+                Flt1(LTest(FALSE, EFn("match", <<ELit(JStr(<<49>>)), ELit(JInt(1))>>))) >>           \* non-string pattern
+C10Docs == <<C10SubjDoc, C10FnDoc>>
+C10Queries == C10ReQ \o C10FnQ
+C10Pick(d, q) == IF q <= Len(C10ReQ) THEN d = 1 /\ Stride(IF Thorough THEN 1 ELSE 3, d, q) ELSE d = 2
+
+(* ---------- C14: in, nin, none_of, any_of, subset_of ---------------------------- *)
+C14Elems == <<JNull, JBool(TRUE), JInt(1), JInt(2), JStr(cA), JArr(<<>>), JArr(<<JInt(1)>>), Obj1(cA, JInt(1))>>
+C14ElemsQ == <<JNull, JInt(1), JInt(2), JStr(cA), JArr(<<JInt(1)>>)>>
+C14E == IF Thorough THEN C14Elems ELSE C14ElemsQ
+C14Arrs == ArraysOver(C14E, IF Thorough THEN 3 ELSE 2)
+C14X == C14E \o SubSeq(C14Arrs, 1, Min2(Len(C14Arrs), IF Thorough THEN 200 ELSE 31)) \o <<NOTHING, Obj1(cB, JInt(2))>>
+C14Ls == SubSeq(C14Arrs, 1, Min2(Len(C14Arrs), IF Thorough THEN 200 ELSE 31)) \o <<NOTHING, JInt(1), JStr(cA), Obj1(cA, JInt(1)), JNull>>
+C14Children == Cross2(C14X, C14Ls, LAMBDA x, l : ObjOpt(<<cL, cX>>, <<l, x>>))
+C14Docs == LET ch == Chunks(C14Children, 60) IN [i \in 1..Len(ch) |-> JArr(ch[i])]
+C14Fns == <<"in", "nin", "none_of", "any_of", "subset_of">>
+C14Queries == FlattenSeq([f \in 1..5 |->
+                << Flt1(LTest(FALSE, EFn(C14Fns[f], <<RelN(cX), RelN(cL)>>))),
+                   Flt1(LTest(TRUE, EFn(C14Fns[f], <<RelN(cX), RelN(cL)>>))),
+                   Flt1(LTest(FALSE, EFn(C14Fns[f], <<RelN(cX), AbsIdxN(0, cL)>>))),
+                   Flt1(LAnd(<<LTest(FALSE, EFn(C14Fns[f], <<RelN(cX), RelN(cL)>>)), LTest(FALSE, RelN(cX))>>)) >>])
+C14Stride == IF Thorough THEN 1 ELSE 1
+
 (* ---------- selection ------------------------------------------------------ *)
-Docs    == CASE Univ = "C01" -> C01Docs
-Queries == CASE Univ = "C01" -> C01Queries
-StrideN == CASE Univ = "C01" -> C01Stride
-Mode    == CASE Univ = "C01" -> "nodes"
-Pick(d, q) == Stride(StrideN, d, q)
+Docs    == CASE Univ = "C01" -> C01Docs [] Univ = "C11" -> C11Docs [] Univ = "C03" -> C03Docs [] Univ = "C04" -> C04Docs
+             [] Univ = "C05" -> C05Docs [] Univ = "C10" -> C10Docs [] Univ = "C14" -> C14Docs
+Queries == CASE Univ = "C01" -> C01Queries [] Univ = "C11" -> C11Queries [] Univ = "C03" -> C03Queries [] Univ = "C04" -> C04Queries
+             [] Univ = "C05" -> C05Queries [] Univ = "C10" -> C10Queries [] Univ = "C14" -> C14Queries
+StrideN == CASE Univ = "C01" -> C01Stride [] Univ = "C11" -> C11Stride [] Univ = "C05" -> C05Stride [] Univ = "C14" -> C14Stride [] OTHER -> 1
+Mode    == CASE Univ = "C03" -> "paths" [] OTHER -> "nodes"
+Pick(d, q) == CASE Univ = "C03" -> C03Pick(d, q)
+                [] Univ = "C04" -> C04Pick(d, q)
+                [] Univ = "C10" -> C10Pick(d, q)
+                [] OTHER -> Stride(StrideN, d, q)
 =============================================================================
